@@ -107,7 +107,7 @@ func verifyFunction(w *World, specs *Specs, ct *Contract, inst map[string]string
 		return res
 	}
 	keep := res.Ctx.sorts.used
-	for iter := 0; iter < 5; iter++ {
+	for iter := 0; iter < 60; iter++ {
 		r2 := verifyFunctionOnce(w, specs, ct, inst, keep)
 		if r2.need == nil {
 			return r2
